@@ -116,7 +116,7 @@ def Info.segStart (i : Info) (s : Nat) : Nat :=
 def Info.segStride (i : Info) : Nat :=
   if i.planar = 0 then i.numberOfSegments else i.bytesAllocated
 
-inductive EncErr | emptySrc | readPos
+inductive EncErr | emptySrc | readPos | tooBig
 deriving Repr, DecidableEq
 
 /-- the plane walk of encodeFrame: `pixelCount` reads at `pos, pos+offset, …`;
@@ -132,8 +132,14 @@ def readPlane (src : Array Byte) (pos stride : Nat) : Nat → Option (List Byte)
 
 def le32 (n : Nat) : List Byte := [n % 256, (n / 256) % 256, (n / 65536) % 256, (n / 16777216) % 256]
 
+/-- `maxEncodedFrameLength` = 0xFFFFFFFE: the largest even 32-bit length (segment offsets and the DICOM item
+    length are 32-bit fields) -/
+def maxEncodedFrameLength : Nat := 4294967294
+
 /-- segments are appended one after the other; `body` is everything after the 64-byte header.
-    Returns (body, offsets, oob). -/
+    Returns (body, offsets, oob).  After each segment's Flush encodeFrame compares `buffer.Len()` with
+    `maxEncodedFrameLength` and returns an error when the stream has grown beyond it (the offsets stored by
+    NextSegment are `uint32(buffer.Len())`: without the guard they wrapped modulo 2^32). -/
 def encodeSegments (i : Info) (src : Array Byte) :
     Nat → Nat → List Byte → List Nat → Bool → Except EncErr (List Byte × List Nat × Bool)
   | 0, _, body, offs, oob => .ok (body, offs, oob)
@@ -145,7 +151,8 @@ def encodeSegments (i : Info) (src : Array Byte) :
     | none => .error .readPos
     | some plane =>
       let r := encodeSegment plane
-      encodeSegments i src n (s + 1) (body ++ r.1) offs (oob || r.2)
+      if 64 + (body ++ r.1).length > maxEncodedFrameLength then .error .tooBig
+      else encodeSegments i src n (s + 1) (body ++ r.1) offs (oob || r.2)
 
 inductive Outcome (α : Type) where
   | ok (a : α)
